@@ -26,6 +26,8 @@ var (
 	flagTier    = flag.String("verif.tier", "quick", "quick or thorough (sizes of generated cases)")
 	flagHang    = flag.Int("verif.hang", 120, "seconds a single case may run before the watchdog declares a hang")
 	flagSamples = flag.Int("verif.samples", 3, "non-trivial sample cases to keep per shard")
+	flagShard   = flag.String("verif.shard", "0/1", "i/n: this process is shard i of n (deterministic enumerations are dealt round-robin)")
+	flagNoExh   = flag.Bool("verif.noexh", false, "skip deterministic enumerations (development only)")
 	flagKnown   = flag.String("verif.known", "", "path of known_findings.json (open findings are excluded by construction and counted)")
 )
 
@@ -58,6 +60,14 @@ func loadKnown() {
 func kfOpen(id string) bool { return openFindings[id] }
 
 func thorough() bool { return *flagTier == "thorough" }
+
+func shardOf() (int, int) {
+	var i, n int
+	if _, err := fmt.Sscanf(*flagShard, "%d/%d", &i, &n); err != nil || n <= 0 || i < 0 || i >= n {
+		return 0, 1
+	}
+	return i, n
+}
 
 // Result is what running one case yields.
 type Result struct {
@@ -95,6 +105,8 @@ type shardOut struct {
 	Mode        string           `json:"mode"` // generate | replay
 	Tier        string           `json:"tier"`
 	Evaluations int              `json:"evaluations"`
+	BulkEvals   int              `json:"bulk_evaluations"`  // cases of deterministic enumerations (distinct by construction)
+	BulkNT      int              `json:"bulk_nontrivial"`   // of those, non-trivial
 	NonTrivial  []string         `json:"nontrivial_hashes"`
 	Classes     map[string]int   `json:"classes"`
 	Samples     []json.RawMessage `json:"samples"`
@@ -161,6 +173,13 @@ func (r *recorder) observe(cj []byte, res *Result) {
 			}
 		}
 	}
+}
+
+func (r *recorder) bulk(evals, nt int) {
+	r.mu.Lock()
+	defer r.mu.Unlock()
+	r.out.BulkEvals += evals
+	r.out.BulkNT += nt
 }
 
 func (r *recorder) extra(k string, v any) {
@@ -242,6 +261,7 @@ type Spec[C any] struct {
 	ID  string
 	Gen func(t *rapid.T) C
 	Run func(c C) *Result
+	Pre func(t *testing.T) // optional deterministic enumeration run before the generated search
 }
 
 func safeRun[C any](run func(C) *Result, c C) (res *Result) {
@@ -294,11 +314,14 @@ func runSpec[C any](t *testing.T, spec Spec[C]) {
 	var lastMsg string
 	var lastCase []byte
 	defer func() {
-		if t.Failed() {
+		if t.Failed() && lastCase != nil {
 			rec.fail(lastMsg, lastCase, false)
 		}
 		rec.flush()
 	}()
+	if spec.Pre != nil {
+		spec.Pre(t)
+	}
 	rapid.Check(t, func(rt *rapid.T) {
 		c := spec.Gen(rt)
 		res, cj := execCase(spec, c)
